@@ -14,6 +14,7 @@ import (
 	logging "github.com/ipfs/go-log/v2"
 	"github.com/ipld/go-storethehash/store/freelist"
 	"github.com/ipld/go-storethehash/store/types"
+	"github.com/ipld/go-storethehash/store/vhook"
 )
 
 var log = logging.Logger("storethehash/mhprimary")
@@ -109,6 +110,7 @@ func (gc *primaryGC) run(interval, timeLimit time.Duration) {
 // of storage reclaimed.
 func (gc *primaryGC) gc(ctx context.Context, lowUsePercent int64, timeLimit time.Duration) (int64, error) {
 	gc.reclaimed = 0
+	vhook.Point("pgc.begin")
 	affectedSet, err := processFreeList(ctx, gc.freeList, gc.primary.basePath, gc.primary.maxFileSize)
 	if err != nil {
 		if err == context.DeadlineExceeded {
@@ -117,6 +119,7 @@ func (gc *primaryGC) gc(ctx context.Context, lowUsePercent int64, timeLimit time
 		return 0, fmt.Errorf("cannot process freelist: %w", err)
 	}
 
+	vhook.Point("pgc.freelistDone")
 	// Remove all files in the affected set from the visited set.
 	for fileNum := range affectedSet {
 		delete(gc.visited, fileNum)
@@ -144,6 +147,7 @@ func (gc *primaryGC) gc(ctx context.Context, lowUsePercent int64, timeLimit time
 
 		filePath := primaryFileName(gc.primary.basePath, fileNum)
 
+		vhook.Point("pgc.file")
 		dead, err := gc.reapRecords(fileNum, lowUsePercent)
 		if err != nil {
 			return gc.reclaimed, err
@@ -151,9 +155,11 @@ func (gc *primaryGC) gc(ctx context.Context, lowUsePercent int64, timeLimit time
 
 		if dead && fileNum == header.FirstFile {
 			header.FirstFile++
+			vhook.Point("pgc.header")
 			if err = writeHeader(gc.primary.headerPath, header); err != nil {
 				return 0, fmt.Errorf("cannot write header: %w", err)
 			}
+			vhook.Point("pgc.unlink")
 			if err = os.Remove(filePath); err != nil {
 				return 0, fmt.Errorf("cannot remove primary file %s: %w", filePath, err)
 			}
@@ -225,6 +231,7 @@ func (gc *primaryGC) reapRecords(fileNum uint32, lowUsePercent int64) (bool, err
 					freeAt = pos
 					freeAtSize = size
 				} else {
+					vhook.Point("pgc.reap.merge")
 					binary.LittleEndian.PutUint32(sizeBuf, freeAtSize|deletedBit)
 					_, err = file.WriteAt(sizeBuf, freeAt)
 					if err != nil {
@@ -263,6 +270,7 @@ func (gc *primaryGC) reapRecords(fileNum uint32, lowUsePercent int64) (bool, err
 	// If there is a span of free records at end of file, truncate file.
 	if freeAt > busyAt {
 		// End of primary is free.
+		vhook.Point("pgc.reap.truncate")
 		if err = file.Truncate(freeAt); err != nil {
 			return false, err
 		}
@@ -310,11 +318,13 @@ func (gc *primaryGC) reapRecords(fileNum uint32, lowUsePercent int64) (bool, err
 			if err != nil {
 				return false, fmt.Errorf("cannot get index key for record key: %w", err)
 			}
+			vhook.Point("pgc.reap.relocate")
 			// Store the key and value in the primary.
 			fileOffset, err := gc.primary.Put(key, val)
 			if err != nil {
 				return false, fmt.Errorf("cannot put new primary record: %w", err)
 			}
+			vhook.Point("pgc.reap.relocated")
 			// Update the index with the new primary location.
 			if err = gc.updateIndex(indexKey, fileOffset); err != nil {
 				log.Errorw("Cannot update index with new record location", "err", err)
@@ -327,6 +337,7 @@ func (gc *primaryGC) reapRecords(fileNum uint32, lowUsePercent int64) (bool, err
 			} else {
 				log.Debugw("Moved record from end of low-use file", "from", fileName, "free", totalFree, "busy", totalBusy)
 			}
+			vhook.Point("pgc.reap.updated")
 			// Do not truncate file here, because moved record may not be
 			// written yet. Instead put moved record onto freelist and let next
 			// GC cycle process freelist and delete this record. This also
@@ -353,10 +364,12 @@ func (gc *primaryGC) reapRecords(fileNum uint32, lowUsePercent int64) (bool, err
 func processFreeList(ctx context.Context, freeList *freelist.FreeList, basePath string, maxFileSize uint32) (map[uint32]struct{}, error) {
 	const freeBatchSize = 1024 * 512
 
+	vhook.Point("pgc.fl.togc")
 	flPath, err := freeList.ToGC()
 	if err != nil {
 		return nil, fmt.Errorf("cannot get freelist gc file: %w", err)
 	}
+	vhook.Point("pgc.fl.handed")
 
 	fi, err := os.Stat(flPath)
 	if err != nil {
@@ -414,6 +427,7 @@ func processFreeList(ctx context.Context, freeList *freelist.FreeList, basePath 
 		log.Debugw("Marked primary records from freelist as deleted", "count", count, "elapsed", time.Since(startTime).String())
 	}
 
+	vhook.Point("pgc.fl.remove")
 	if err = os.Remove(flPath); err != nil {
 		return nil, fmt.Errorf("error removing freelist: %w", err)
 	}
@@ -482,6 +496,7 @@ func deleteRecords(freeBatch []*types.Block, maxFileSize uint32, basePath string
 
 		// Mark the record as deleted by setting the highest bit in the size. This
 		// assumes that the record size is < 2^31.
+		vhook.Point("pgc.fl.mark")
 		binary.LittleEndian.PutUint32(sizeBuf, recSize|deletedBit)
 		_, err = file.WriteAt(sizeBuf, int64(localPos))
 		if err != nil {
